@@ -395,7 +395,7 @@ def run_case(case: Dict[str, Any]) -> CaseInfo:
 def parts() -> List[Part]:
     ps = []
     for src, q in (("c06", 900), ("c01", 700), ("c10", 500), ("c03", 900), ("c04", 900),
-                   ("slow", 300), ("c07", 900), ("state", 200)):
+                   ("slow", 300), ("c07", 2400), ("state", 200)):
         ps.append(Part(src, run_case, strategy=(lambda s=src: case_strategy(s)), quick=q,
                        thorough=q * 40, rule=f"sessions generated by {src.upper()}'s generators"))
     return ps
